@@ -138,11 +138,14 @@ def gen_components(ch, sim, log):
             c = RateLimiter(RateLimitConfig(capacity=cap, refill_rate=0.001, retry_after=9))
             d = f"RateLimiter(cap={cap})"
         elif k == 5:
-            v = ch.choose("acl", 4)
+            v = ch.choose("acl", 5)
             cfg = [AccessControlConfig(deny_list=["10.0.0.0/8", "2001:db8::/32"]),
                    AccessControlConfig(allow_list=["192.168.0.0/16", "::1"]),
                    AccessControlConfig(default_allow=False),
-                   AccessControlConfig(allow_list=["203.0.113.77"], deny_list=["172.16.0.0/12"])][v]
+                   AccessControlConfig(allow_list=["203.0.113.77"], deny_list=["172.16.0.0/12"]),
+                   # nested / overlapping networks in one list (two block lists concatenated)
+                   AccessControlConfig(deny_list=["10.0.0.0/8", "10.0.0.2/31", "2001:db8::/32",
+                                                  "2001:db8::/127", "172.16.0.0/12", "172.16.0.0/30"])][v]
             c = AccessControl(cfg)
             d = f"AccessControl(v{v})"
         else:
@@ -165,7 +168,8 @@ def gen_components(ch, sim, log):
 
 
 _ACL_ALLOWED = {"v0": {"192.168.7.9", "203.0.113.77", "::1", "172.16.0.1"},
-                "v1": {"192.168.7.9", "::1"}, "v2": set(), "v3": {"203.0.113.77"}}
+                "v1": {"192.168.7.9", "::1"}, "v2": set(), "v3": {"203.0.113.77"},
+                "v4": {"192.168.7.9", "203.0.113.77", "::1"}}
 _CA_WHITELIST = {"v2": "cli_rsa1", "v3": "cli_ed1", "v4": "cli_same1"}
 
 
